@@ -345,6 +345,14 @@ func runScript(sc Script, serial *sync.Mutex) []Ev {
 		BuildInfo: component.NewDefaultBuildInfo()}
 	var opts []exporterhelper.Option
 	opts = append(opts, exporterhelper.WithTimeout(exporterhelper.TimeoutConfig{Timeout: 0}))
+	// the user's own start / shutdown functions: the export function must only run inside that lifetime
+	opts = append(opts, exporterhelper.WithStart(func(context.Context, component.Host) error {
+		r.log(Ev{Ev: "ustart_end"})
+		return nil
+	}), exporterhelper.WithShutdown(func(context.Context) error {
+		r.log(Ev{Ev: "ushutdown_begin"})
+		return nil
+	}))
 	var store *xh.Store
 	var host component.Host = componenttest.NewNopHost()
 	if cfg.Queue != "none" {
